@@ -116,7 +116,7 @@ fn gen_const(rng: &mut Rng, depth: usize) -> Value {
         0 => Value::Int(*rng.pick(&[0i128, 1, -5, 42, i128::MAX, i128::MIN])),
         1 => Value::Float(*rng.pick(&[0.5f64, -2.25, 1e21, 5.0, 0.1])),
         2 => Value::Decimal(*rng.pick(&[Decimal::new(55, 1), Decimal::new(-1, 28), Decimal::new(100, 2)])),
-        3 => Value::String(rng.pick(&["", "plain", "with \"quotes\"", "back\\slash", "// not a comment", "two\nlines", "ünï"]).to_string()),
+        3 => Value::String(rng.pick(&["", "plain", "with \"quotes\"", "back\\slash", "// not a comment", "two\nlines", "ünï", "C:\\", "\\", "ends with quote\"", "\\\"", "a // b \\"]).to_string()),
         4 => Value::Bool(rng.chance(1, 2)),
         5 => Value::None,
         6 => Value::Vec((0..rng.below(4)).map(|_| gen_const(rng, depth - 1)).collect()),
@@ -130,13 +130,15 @@ fn gen_const(rng: &mut Rng, depth: usize) -> Value {
     }
 }
 
-const EXPRS: [&str; 17] = [
+const EXPRS: [&str; 20] = [
     "i1", "a + b * i2", "if x then \"y\" else none", "f(a).b.0", "[i1, {k: d2.5}]", "a contains \"s\" and !b", "\"multi\nline\"", "(i1)", "x == \"// slashes in a string\"", ":sym | i4",
     // a comment-looking line inside a multi-line string literal
     "\"first\n// inside a string literal\nlast\"",
     "lowercase(name) in [\"a\", \"b\"]",
     // operators directly followed by a string that spans lines and contains a comment-looking line
     "total /\"per\n// not a comment\nunit\"", "a ==\"x\n//y\" and b /\"/\"", "x /// a real trailing comment after a division\n y",
+    // strings that end in an escaped backslash or an escaped quote, with code after them
+    "\"C:\\\\temp\" == \"C:\\\\\"", "path contains \"\\\\\" and x", "\"say \\\"hi\\\"\" == s",
     // invalid expressions
     "i1 +", "a b",
 ];
@@ -145,7 +147,7 @@ fn gen_parts(rng: &mut Rng, n_comments: usize, n_meta: usize, expr: &str) -> Vec
     let mut metas = vec![];
     for _ in 0..n_meta {
         let kind = rng.below(20);
-        let key = rng.pick(&["k", "priority", "tags", "description", "name", "Name", "owner_1", "k"]).to_string();
+        let key = rng.pick(&["k", "priority", "tags", "description", "name", "Name", "owner_1", "k", "names", "name2", "nam", "descriptions", "description2", "desc", "n", "NAME", "Description"]).to_string();
         let part = if kind < 13 {
             let v = if key == "name" && rng.chance(4, 5) { Value::String(rng.pick(&["meta name", "", " padded ", "n\"q"]).to_string()) } else if key == "description" && rng.chance(2, 3) { Value::String(rng.pick(&["meta description", "line1\nline2"]).to_string()) } else { gen_const(rng, 2) };
             Part::Meta { key, text: value_text(&v).expect("constant is printable"), value: Some(v), trailing_comment: rng.chance(1, 5) }
